@@ -146,3 +146,103 @@ def plan_C20(c):
 
 EXTRA_ASSUME['C20'] = ['build configurations are cargo profiles of the harness workspace (dev, release, relchk = release+overflow-checks+debug-assertions, '
                        'devnochk = dev without them) x feature packed; the fpdec crates are compiled with the same profile as path dependencies']
+
+
+# ---------------------------------------------------------------- C18: Dec!(lit) programs
+import re, subprocess, shutil
+LIT_RE = re.compile(r'^[+-]?[0-9]+(\.[0-9]+([eE][+-]?[0-9]+)?|\.|[eE][+-]?[0-9]+)?$')   # one Rust literal token, optionally signed, no suffix
+
+
+def compile_lits(c, lits):
+    """returns {index: (coeff, scale)} for the literals that compile; the others fail to compile"""
+    run = run_cmd
+    d = os.path.join(HARN, 'lits')
+    shutil.copy('/repo/Cargo.lock', os.path.join(d, 'Cargo.lock'))
+    os.makedirs(os.path.join(d, 'src'), exist_ok=True)
+    alive = list(range(len(lits)))
+    failed = set()
+    for attempt in range(4):
+        head = ['use fpdec::{Dec, Decimal};', 'fn main() {', '    let v: Vec<(usize, Decimal)> = vec![']
+        with open(os.path.join(d, 'src', 'main.rs'), 'w') as f:
+            f.write('\n'.join(head) + '\n')
+            for i in alive:
+                f.write('(%d, Dec!(%s)),\n' % (i, lits[i]))
+            f.write('    ];\n    for (i, d) in v { println!("{} {} {}", i, d.coefficient(), d.n_frac_digits()); }\n}\n')
+        p = run(['cargo', 'build', '--offline', '--quiet', '--message-format=json'], cwd=d, timeout=1200)
+        if p.returncode == 0:
+            break
+        bad = set()
+        for line in p.stdout.splitlines():
+            try:
+                m = json.loads(line)
+            except Exception:
+                continue
+            if m.get('reason') != 'compiler-message' or m['message'].get('level') != 'error':
+                continue
+            for sp in m['message'].get('spans', []):
+                if sp.get('file_name', '').endswith('main.rs') and sp['line_start'] > len(head):
+                    k = sp['line_start'] - len(head) - 1
+                    if 0 <= k < len(alive):
+                        bad.add(alive[k])
+        if not bad:
+            raise ToolError('literal program does not compile and no literal is blamed:\n' + p.stderr[-2000:])
+        failed |= bad
+        alive = [i for i in alive if i not in bad]
+    else:
+        raise ToolError('literal program still fails to compile after removing blamed literals')
+    out = run([os.path.join(HARN, 'target', 'lits', 'debug', 'fpv-lits')], timeout=300)
+    if out.returncode != 0:
+        raise ToolError('literal program crashed: ' + out.stderr[-500:])
+    res = {}
+    for line in out.stdout.splitlines():
+        i, co, sc = line.split()
+        res[int(i)] = (int(co), int(sc))
+    return res
+
+
+def limbs(a):
+    v = []
+    while a > 0:
+        v.append(a % 10000)
+        a //= 10000
+    return v
+
+
+def plan_C18(c):
+    pay = c.generate('GenLits', prefix='LIT', cfg='GenLits_' + c.tier)
+    lits = sorted(set(l for l in pay if LIT_RE.match(l)))
+    c.cov['literals_generated'] = len(pay)
+    c.cov['literals_valid_tokens'] = len(lits)
+    batch = 6000
+    events = []
+    for b0 in range(0, len(lits), batch):
+        part = lits[b0:b0 + batch]
+        mac = compile_lits(c, part)
+        # the same text through from_str on the real crate
+        calls = [{'ev': 'parse', 't': 1, 'form': 'from_str', 'radix': 10, 'bs': list(l.encode())} for l in part]
+        traces = c.exec_vectors(calls, 'lits%d' % b0, chunks=1)
+        rts = [json.loads(x) for x in open(traces[0]) if json.loads(x)['ev'] == 'parse']
+        assert len(rts) == len(part)
+        for i, l in enumerate(part):
+            if i in mac:
+                co, sc = mac[i]
+                m = {'k': 'ok', 's': (co > 0) - (co < 0), 'm': limbs(abs(co)), 'f': sc}
+            else:
+                m = {'k': 'cerr'}
+            events.append({'ev': 'lit', 't': 1, 'bs': list(l.encode()), 'text': l, 'mac': m, 'rt': rts[i]['out']})
+    nch = 8
+    files = []
+    per = (len(events) + nch - 1) // nch
+    for i in range(nch):
+        fn = os.path.join(c.work, 'L_%d.ndjson' % i)
+        with open(fn, 'w') as f:
+            for e in events[i * per:(i + 1) * per]:
+                f.write(json.dumps(e) + '\n')
+        files.append(fn)
+    c.validate_many(files, 'lit')
+    c.cov['macro_accepted'] = sum(1 for e in events if e['mac']['k'] == 'ok')
+    c.cov['macro_rejected'] = sum(1 for e in events if e['mac']['k'] != 'ok')
+
+
+EXTRA_ASSUME['C18'] = ['literals are restricted to single Rust literal tokens (optionally signed, no suffix, no underscores): the quantifier of C18; '
+                       'a literal "fails to compile" iff rustc reports an error whose span is the line of that Dec!(..) invocation']
